@@ -9,6 +9,7 @@
 mod common;
 
 mod c02;
+mod c12;
 mod c13;
 mod mgr;
 mod world;
@@ -23,6 +24,10 @@ fn main() {
         std::process::exit(2);
     }
     let prop = args[2].clone();
+    if prop == "C12" && std::env::var("VERIF_CHILD").is_err() {
+        parent_per_case(&prop);
+        return;
+    }
     let stdin = std::io::stdin();
     let stdout = std::io::stdout();
     let mut out = std::io::BufWriter::new(stdout.lock());
@@ -61,6 +66,9 @@ fn main() {
             Err(p) => format!("panic {}", panic_msg(&p).replace('\n', " ")),
         };
         writeln!(out, "{} -> {}", t, obs).unwrap();
+        if std::env::var("VERIF_CHILD").is_ok() {
+            out.flush().unwrap();
+        }
     }
     if let Some(mut e) = exec.take() {
         e.finish();
@@ -73,10 +81,96 @@ fn new_exec(prop: &str, case_no: u64) -> Box<dyn CaseExec> {
         "C02" => Box::new(c02::Exec::new(case_no)),
         "C01" | "C03" | "C04" | "C05" | "C06" | "C07" | "C08" | "C09" | "C11" => Box::new(world::Exec::new(case_no)),
         "C10" => Box::new(mgr::Exec::new(case_no)),
+        "C12" => Box::new(c12::Exec::new(case_no)),
         "C13" => Box::new(c13::Exec::new(case_no)),
         _ => {
             eprintln!("unknown property {}", prop);
             std::process::exit(2);
         }
     }
+}
+
+/// One child process per case: the child executes the case's lines; the parent copies its output, and reports a
+/// child that does not finish in time as `hang` and one that dies as `crash` on the first operation without an answer.
+fn parent_per_case(prop: &str) {
+    use std::process::{Command, Stdio};
+    let stdin = std::io::stdin();
+    let mut cases: Vec<Vec<String>> = Vec::new();
+    for line in stdin.lock().lines() {
+        let line = line.unwrap();
+        let line = match line.find(" -> ") {
+            Some(i) => line[..i].to_string(),
+            None => line,
+        };
+        let t = line.trim().to_string();
+        if t.is_empty() || t.starts_with('#') {
+            continue;
+        }
+        if t.starts_with("case ") || t == "case" || cases.is_empty() {
+            cases.push(Vec::new());
+        }
+        cases.last_mut().unwrap().push(t);
+    }
+    let limit_ms: u64 = std::env::var("VERIF_CASE_TIMEOUT_MS").ok().and_then(|v| v.parse().ok()).unwrap_or(10_000);
+    let exe = std::env::current_exe().unwrap();
+    let stdout = std::io::stdout();
+    let mut out = std::io::BufWriter::new(stdout.lock());
+    for case in cases {
+        let mut child = Command::new(&exe)
+            .args(["exec", prop])
+            .env("VERIF_CHILD", "1")
+            .stdin(Stdio::piped())
+            .stdout(Stdio::piped())
+            .stderr(Stdio::null())
+            .spawn()
+            .unwrap();
+        {
+            let mut cin = child.stdin.take().unwrap();
+            let text = case.join("\n") + "\n";
+            let _ = cin.write_all(text.as_bytes());
+        }
+        let mut cout = child.stdout.take().unwrap();
+        let reader = std::thread::spawn(move || {
+            let mut s = String::new();
+            let _ = std::io::Read::read_to_string(&mut cout, &mut s);
+            s
+        });
+        let start = std::time::Instant::now();
+        let mut verdict = "";
+        loop {
+            match child.try_wait().unwrap() {
+                Some(st) => {
+                    if !st.success() {
+                        verdict = "crash";
+                    }
+                    break;
+                }
+                None => {
+                    if start.elapsed().as_millis() as u64 > limit_ms {
+                        let _ = child.kill();
+                        let _ = child.wait();
+                        verdict = "hang";
+                        break;
+                    }
+                    std::thread::sleep(std::time::Duration::from_millis(2));
+                }
+            }
+        }
+        let text = reader.join().unwrap();
+        let got: Vec<&str> = text.lines().collect();
+        for l in &got {
+            writeln!(out, "{}", l).unwrap();
+        }
+        // operations without an answer
+        let mut first = true;
+        for l in case.iter().skip(got.len()) {
+            if first && !verdict.is_empty() {
+                writeln!(out, "{} -> {}", l, verdict).unwrap();
+            } else {
+                writeln!(out, "{} -> skipped", l).unwrap();
+            }
+            first = false;
+        }
+    }
+    out.flush().unwrap();
 }
